@@ -95,7 +95,7 @@ for p in props:
                 "design_ref": f"DESIGN.md section 2, {pid}",
             },
             "level_note": TRUST,
-            "technique": "static analysis: " + tech,
+            "technique": "static analysis: " + tech + "; on a tree with functions that are not in the reference inventory, a source-level normalisation (calls of new helpers expanded in place, type-checked again) gives a second view of the same behaviour and the alarm is raised only if neither view discharges every obligation",
         })
     else:
         na.append({"property_id": pid, "reason": NA_REASON})
@@ -111,7 +111,7 @@ m = {
    "add_only": True,
  },
  "engines": [{"name": "goatverif", "path": "tool/", "serves_properties": sorted(CLAIMED),
-              "kind_free_text": "custom static analyser over go/packages + go/types + go/ssa (x/tools v0.29.0, vendored): canonical SSA expression rendering, must-pass edge facts, enum typestate, who-may-write, repo call graph (CHA over production types)"}],
+              "kind_free_text": "custom static analyser over go/packages + go/types + go/ssa (x/tools v0.29.0, vendored): canonical SSA expression rendering, must-pass edge facts, enum typestate, who-may-write, repo call graph (CHA over production types); normalise.go: Go-to-Go expansion of calls to functions not in the reference inventory (tool/inventory.txt)"}],
  "checks": checks,
  "notes": "All checks are static analysis of /repo's current working tree; see DESIGN.md. fix: commits in /repo are listed in known_findings.txt.",
  "not_applicable": na,
